@@ -371,34 +371,70 @@ mod mint_conv {
         let p2: mint::Point2<u32> = Point2::new(a[0], a[1]).into();
         assert!(p2.x == a[0] && p2.y == a[1]);
     }
+    // The mint type of a matrix is reached through `IntoMint::MintType`, and its *meaning* (which mint field is which
+    // column / row) through `ColMajor`, implemented for mint's column- and row-matrix types alike: a change of the mint
+    // type or of the field mapping then fails an assertion with a counterexample instead of failing to compile.
+    trait ColMajor<const N: usize> { fn at(&self, c: usize, r: usize) -> u32; fn build(f: &dyn Fn(usize, usize) -> u32) -> Self; }
+    macro_rules! col_major {
+        ($N:expr, $Col:ident, $Row:ident, $V:ident, [$($f:ident : $i:expr),+]) => {
+            impl ColMajor<$N> for mint::$Col<u32> {
+                fn at(&self, c: usize, r: usize) -> u32 { let col: [u32; $N] = match c { $($i => self.$f.into(),)+ _ => panic!() }; col[r] }
+                fn build(f: &dyn Fn(usize, usize) -> u32) -> Self { mint::$Col { $($f: { let mut a = [0u32; $N]; for r in 0..$N { a[r] = f($i, r); } a.into() }),+ } }
+            }
+            impl ColMajor<$N> for mint::$Row<u32> {
+                fn at(&self, c: usize, r: usize) -> u32 { let row: [u32; $N] = match r { $($i => self.$f.into(),)+ _ => panic!() }; row[c] }
+                fn build(f: &dyn Fn(usize, usize) -> u32) -> Self { mint::$Row { $($f: { let mut a = [0u32; $N]; for c in 0..$N { a[c] = f(c, $i); } a.into() }),+ } }
+            }
+        };
+    }
+    col_major!(2, ColumnMatrix2, RowMatrix2, Vector2, [x: 0, y: 1]);
+    col_major!(3, ColumnMatrix3, RowMatrix3, Vector3, [x: 0, y: 1, z: 2]);
+    col_major!(4, ColumnMatrix4, RowMatrix4, Vector4, [x: 0, y: 1, z: 2, w: 3]);
+    fn same_type<A: 'static, B: 'static>() -> bool { core::any::TypeId::of::<A>() == core::any::TypeId::of::<B>() }
+
     #[kani::proof]
-    fn matrices_quaternion() {
+    #[kani::unwind(5)]
+    fn matrix3_quaternion() {
         let a: [u32; 9] = kani::any();
         let m = Matrix3::new(a[0], a[1], a[2], a[3], a[4], a[5], a[6], a[7], a[8]);
-        let mm: mint::ColumnMatrix3<u32> = m.into();
-        assert!(mm.x.x == a[0] && mm.x.y == a[1] && mm.x.z == a[2] && mm.y.x == a[3] && mm.z.z == a[8] && mm.z.x == a[6]);
-        let back: Matrix3<u32> = mm.into();
-        assert!(back[1][2] == a[5] && back[2][0] == a[6] && back[0][1] == a[1]);
+        type M = <Matrix3<u32> as mint::IntoMint>::MintType;
+        assert!(same_type::<M, mint::ColumnMatrix3<u32>>());
+        let mm: M = m.into();
+        let (c, r): (usize, usize) = (kani::any(), kani::any());
+        kani::assume(c < 3 && r < 3);
+        assert!(ColMajor::<3>::at(&mm, c, r) == a[3 * c + r]);
+        let src: M = ColMajor::<3>::build(&|c, r| a[3 * c + r]);
+        let back: Matrix3<u32> = src.into();
+        assert!(back[c][r] == a[3 * c + r]);
         let q = Quaternion::new(a[3], a[0], a[1], a[2]);
         let mq: mint::Quaternion<u32> = q.into();
         assert!(mq.s == a[3] && mq.v.x == a[0] && mq.v.y == a[1] && mq.v.z == a[2]);
         let qb: Quaternion<u32> = mq.into();
-        assert!(qb.s == a[3] && qb.v.x == a[0] && qb.v.z == a[2]);
+        assert!(qb.s == a[3] && qb.v.x == a[0] && qb.v.y == a[1] && qb.v.z == a[2]);
     }
     #[kani::proof]
+    #[kani::unwind(6)]
     fn matrix2_matrix4() {
         let a: [u32; 16] = kani::any();
         let m = Matrix2::new(a[0], a[1], a[2], a[3]);
-        let mm: mint::ColumnMatrix2<u32> = m.into();
-        assert!(mm.x.x == a[0] && mm.x.y == a[1] && mm.y.x == a[2] && mm.y.y == a[3]);
-        let back: Matrix2<u32> = mm.into();
-        assert!(back[0][0] == a[0] && back[0][1] == a[1] && back[1][0] == a[2] && back[1][1] == a[3]);
+        type M2 = <Matrix2<u32> as mint::IntoMint>::MintType;
+        type M4 = <Matrix4<u32> as mint::IntoMint>::MintType;
+        assert!(same_type::<M2, mint::ColumnMatrix2<u32>>());
+        assert!(same_type::<M4, mint::ColumnMatrix4<u32>>());
+        let mm: M2 = m.into();
+        let (c, r): (usize, usize) = (kani::any(), kani::any());
+        kani::assume(c < 4 && r < 4);
+        if c < 2 && r < 2 {
+            assert!(ColMajor::<2>::at(&mm, c, r) == a[2 * c + r]);
+            let src: M2 = ColMajor::<2>::build(&|c, r| a[2 * c + r]);
+            let back: Matrix2<u32> = src.into();
+            assert!(back[c][r] == a[2 * c + r]);
+        }
         let m4 = Matrix4::new(a[0], a[1], a[2], a[3], a[4], a[5], a[6], a[7], a[8], a[9], a[10], a[11], a[12], a[13], a[14], a[15]);
-        let mm4: mint::ColumnMatrix4<u32> = m4.into();
-        assert!(mm4.x.x == a[0] && mm4.x.w == a[3] && mm4.y.x == a[4] && mm4.z.y == a[9] && mm4.w.x == a[12] && mm4.w.w == a[15] && mm4.y.z == a[6] && mm4.z.w == a[11]);
-        let back4: Matrix4<u32> = mm4.into();
-        let k: usize = kani::any();
-        kani::assume(k < 16);
-        assert!(back4[k / 4][k % 4] == a[k]);
+        let mm4: M4 = m4.into();
+        assert!(ColMajor::<4>::at(&mm4, c, r) == a[4 * c + r]);
+        let src4: M4 = ColMajor::<4>::build(&|c, r| a[4 * c + r]);
+        let back4: Matrix4<u32> = src4.into();
+        assert!(back4[c][r] == a[4 * c + r]);
     }
 }
